@@ -183,6 +183,16 @@ def _object_method(it, name, o):
 
 def _native_method(it, o, name):
     """Methods of concrete Python containers / scalars holding interpreter values."""
+    from .values import Deque
+    if isinstance(o, Deque) and name in ("popleft", "appendleft"):
+        def dq(*args):
+            if name == "appendleft":
+                o.insert(0, args[0])
+                return None
+            if not o:
+                raise PyRaise(it.make_exc("IndexError", "pop from an empty deque"))
+            return o.pop(0)
+        return Builtin(f"deque.{name}", dq)
     if name in ("keys", "values", "items", "get", "append", "extend", "pop", "insert", "copy",
                 "update", "add", "discard", "remove", "clear", "setdefault", "index", "count",
                 "union", "intersection", "difference", "issubset", "issuperset", "isdisjoint",
